@@ -473,7 +473,7 @@ def main():
                   rule="ec_pubkey_combine for EVERY sequence of 1..3 group points (cancelling pairs at every position)")
     # ---- secp256k1: depth-bounded BFS
     starts = [1, 2, (N - 1) // 2, N - 2, N - 1, i32(fill[1]) % N or 3]
-    depth = 3 if thorough else 2
+    depth = 4 if thorough else 3
     for cfg in prods:
         dd = depth if cfg == "prod-san" or thorough else 2
         bfs(run, cfg, "keys-bfs-depth%d" % dd, starts, dd, f0,
